@@ -53,6 +53,11 @@
     bestConn through the locking accessor bestConnection()); the real code is
     [reent = false], the deadlock of [reent = true] is Proofs/PoolMutants.v.
 
+    Run handles the queued head updates one at a time, oldest first ([LTake] removes
+    the head of [updq]); the flag [coal] is the variant that merges everything queued
+    into "the newest head" and so loses the best connection's update when the survivor
+    belongs to another connection.
+
     Reductions (sound because the merged code has no blocking operation and touches
     no shared state in between): unsubscribe is one step (Lock; delete; Unlock);
     receive + comparison is one step; the other users of p.mu (bestConnection,
@@ -215,9 +220,20 @@ Definition newer (old : option msg) (u : msg) : msg :=
 Definition mk_conns (nconns : nat) (heads : nat -> N) (obs : list (bool * Z)) : list conn :=
   map (fun i => let o := nth i obs (false, 0%Z) in mkConn (fst o) (heads i) (snd o)) (seq 0 nconns).
 
+(** the variant of Run that, after receiving one update, also takes everything already
+    queued and keeps the update with the highest (latest on ties) seqno
+    ([if next.Head.Seqno >= update.Head.Seqno { update = next }]); the real Run takes
+    one update per iteration of its loop.  Refuted in Proofs/PoolMutants.v. *)
+Fixpoint coalesce (u : msg) (rest : list msg) : msg :=
+  match rest with
+  | [] => u
+  | n :: t => coalesce (if (snd u <=? snd n)%N then n else u) t
+  end.
+
 Section Step.
   Variable strat : strategy.      (* p.strategy *)
   Variable reent : bool.          (* false: the real code; true: notifySubscribers re-acquires RLock *)
+  Variable coal : bool.           (* false: the real code; true: Run merges all queued updates into one *)
   Variable nconns : nat.          (* len(p.conns), fixed after initialisation *)
   Variable tgt : nat -> N.        (* seqno waiter w waits for *)
 
@@ -237,7 +253,9 @@ Section Step.
         end
     | LTake =>
         match rpc s, updq s with
-        | RIdle, u :: rest => Some (set_rpc (set_updq s rest) (RWantR u))
+        | RIdle, u :: rest =>
+            if coal then Some (set_rpc (set_updq s []) (RWantR (coalesce u rest)))
+            else Some (set_rpc (set_updq s rest) (RWantR u))   (* one update, the oldest one *)
         | _, _ => None
         end
     | LRLock order =>
@@ -386,13 +404,13 @@ Definition init_state (heads : nat -> N) (b : option nat) : state :=
 
 (** the holder of the pool lock (writer, or the reader = Run in notifySubscribers)
     has an enabled step *)
-Definition holder_can_step (strat : strategy) (reent : bool) (nconns : nat) (tgt : nat -> N) (s : state) : Prop :=
+Definition holder_can_step (strat : strategy) (reent coal : bool) (nconns : nat) (tgt : nat -> N) (s : state) : Prop :=
   match writer s with
-  | Some (AW w) => step strat reent nconns tgt s (LSubBody w) <> None
-  | Some ARun => forall obs, step strat reent nconns tgt s (LUpdDone obs) <> None
-  | None => readers s = 0 \/ step strat reent nconns tgt s LSend <> None \/
-            step strat reent nconns tgt s LRUnlock <> None \/
-            exists o, step strat reent nconns tgt s (LRInner o) <> None
+  | Some (AW w) => step strat reent coal nconns tgt s (LSubBody w) <> None
+  | Some ARun => forall obs, step strat reent coal nconns tgt s (LUpdDone obs) <> None
+  | None => readers s = 0 \/ step strat reent coal nconns tgt s LSend <> None \/
+            step strat reent coal nconns tgt s LRUnlock <> None \/
+            exists o, step strat reent coal nconns tgt s (LRInner o) <> None
   end.
 
 (** the steps by which the current holder of the pool lock finishes its critical
